@@ -83,6 +83,10 @@ def qualifier(inv, case, rec):
         lost = [j for j in range(1, len(rec.get('jobs', [])) + 1) if j not in served and j not in listed]
         if lost and not (served & listed):
             return 'relation-problem-job-neither-served-nor-unassigned'
+    if inv == 'Reach' and case.get('construction_only'):
+        # no generation ran: the returned solution was built by insertions alone (no removal that could close a gap over an
+        # unreachable pair), every leg of it was evaluated
+        return 'construction-only'
     if inv == 'Reach':
         return 'pairwise-unreachable' if case.get('unreach_mode') == 'pairwise' else 'location-unreachable'
     if inv in ('LimitDistance', 'LimitDuration') and not case.get('metric', True) and (inv == 'LimitDistance' or case.get('travel_only')):
@@ -199,7 +203,10 @@ def add_clustering(case, rnd):
         threshold['maxJobsPerCluster'] = rnd.choice([2, 3])
     c['problem']['plan']['clustering'] = {'type': 'vicinity', 'profile': {'matrix': profile}, 'threshold': threshold,
                                           'visiting': rnd.choice(['continue', 'return']), 'serving': serving}
-    c['problem']['plan'].pop('relations', None)
+    if rnd.random() < 0.5:
+        # `filtering` present (with and without ids): jobs kept out of every cluster
+        ids = [j['id'] for j in c['problem']['plan']['jobs']]
+        c['problem']['plan']['clustering']['filtering'] = {'excludeJobIds': rnd.sample(ids, rnd.choice([0, 0, 1, 2]) if len(ids) > 2 else 0)}
     c['features'] = sorted(set(c.get('features', [])) | {'clustering'})
     return c
 
@@ -229,7 +236,7 @@ def accounting_qualifier(inv, case, rec):
 
 def clustering_pass(pid, tier, cases, rnd, verdict):
     """C02 only: problems with vicinity clustering; the accounting of jobs is judged by JudgeAccounting.tla."""
-    picked = [c for c in cases if rnd.random() < (0.12 if tier == 'quick' else 0.15)]
+    picked = [c for c in cases if rnd.random() < (0.12 if tier == 'quick' else 0.15) or (c.get('problem', {}).get('plan', {}).get('relations') and rnd.random() < 0.5)]
     ccases = [add_clustering(c, rnd) for c in picked]
     out = solve(pid + '-c', ccases, jobs=10) if ccases else {}
     recs, clustered = [], 0
@@ -360,11 +367,20 @@ def run(pid, tier):
     # fourth pass: coordinate twins (no matrices: the reader approximates the routing data and reports it back)
     geo_cases = [to_coords(c, rnd) for c in cases if 'unreachable' not in c.get('features', []) and rnd.random() < 0.15]
     geo_out = solve(pid + '-g', geo_cases, jobs=10) if geo_cases else {}
+    # sixth pass: problems with unreachable pairs solved without any generation (the best initial solution is returned)
+    con_cases = []
+    for c in cases:
+        if c.get('unreach_mode') == 'pairwise':
+            cc = copy.deepcopy(c); cc['id'] = c['id'] + 'z'; cc['construction_only'] = True
+            cc['config']['termination'] = {'maxGenerations': 0, 'maxTime': 30}
+            con_cases.append(cc)
+    con_out = solve(pid + '-z', con_cases, jobs=10) if con_cases else {}
     # fifth pass: recharge twins (stations and a distance budget per stretch on most shifts)
     rch_cases = [add_recharge(c, rnd) for c in cases if rnd.random() < (0.2 if tier == 'quick' else 0.25)]
     rch_out = solve(pid + '-e', rch_cases, jobs=10) if rch_cases else {}
-    cases_by_id = {c['id']: c for c in cases + rel_cases + init_cases + geo_cases + rch_cases}
+    cases_by_id = {c['id']: c for c in cases + rel_cases + init_cases + geo_cases + rch_cases + con_cases}
     outcomes.update(rch_out)
+    outcomes.update(con_out)
     outcomes.update(rel_out)
     outcomes.update(init_out)
     outcomes.update(geo_out)
@@ -466,7 +482,7 @@ def run(pid, tier):
                 continue
             verdict.add('%s/ReportedLocationIsOfTheProblem/coords' % pid, 'record %s reports %s, which is no location of the problem' % (cid, json.dumps(unknown[:2])),
                         {'case': dict(cases_by_id[cid], problem=cases_by_id[cid]['problem_coords'], matrices=None), 'solution': outcomes[cid]['solution_coords']})
-    clustering = clustering_pass(pid, tier, cases, rnd, verdict) if pid == 'C02' else None
+    clustering = clustering_pass(pid, tier, cases + rel_cases, rnd, verdict) if pid == 'C02' else None
     rc = verdict.finish()
 
     feats = collections.Counter(f for c in cases_by_id.values() for f in c.get('features', []))
@@ -482,7 +498,7 @@ def run(pid, tier):
                      'unassigned': [u['job'] for u in sample['unassigned']], 'config': cases_by_id[sample['id']]['config']}],
         'invariants_judged': sorted(mine), 'invariants_failed_of_other_properties': dict(others),
         'solver_status': dict(status), 'not_ok_runs_not_judged_here': not_ok[:5], 'unsupported_projection': dict(unsupported),
-        'relation_cases': len(rel_cases), 'seeded_cases': len(init_cases), 'recharge_cases': len(rch_cases), 'recharge_solutions_with_recharge_stops': sum(1 for c in rch_cases if outcomes[c['id']]['status'] == 'ok' and any(a['type'] == 'recharge' for t in outcomes[c['id']]['solution'].get('tours', []) for st in t['stops'] for a in st['activities'])), 'coordinate_cases': len(geo_cases), 'coordinate_cases_judged': sum(1 for c in geo_cases if outcomes[c['id']]['status'] == 'ok'), 'vicinity_clustering_pass': clustering, 'feature_counts': dict(feats),
+        'relation_cases': len(rel_cases), 'seeded_cases': len(init_cases), 'construction_only_cases_with_unreachable_pairs': len(con_cases), 'recharge_cases': len(rch_cases), 'recharge_solutions_with_recharge_stops': sum(1 for c in rch_cases if outcomes[c['id']]['status'] == 'ok' and any(a['type'] == 'recharge' for t in outcomes[c['id']]['solution'].get('tours', []) for st in t['stops'] for a in st['activities'])), 'coordinate_cases': len(geo_cases), 'coordinate_cases_judged': sum(1 for c in geo_cases if outcomes[c['id']]['status'] == 'ok'), 'vicinity_clustering_pass': clustering, 'feature_counts': dict(feats),
         'canaries': {'applied': canary_total, 'rejected': canary_rejected},
         'known_finding_hits': {k: len(v) for k, v in verdict.known_hits.items()},
         'tlc_wall_s': round(res.wall, 1),
